@@ -140,7 +140,7 @@ Definition all_details (pre : list detail) (steps : list step) : list detail :=
 Definition wf (i : input) : Prop :=
   match i with
   | IRepr isb s _ _ => Forall (fun c => (c < (if isb then 256 else 1114112))%N) s
-  | IDesc _ _ _ => True
+  | IDesc _ modelled _ => modelled = true      (* the harness knows how to build the matcher *)
   | ITest pre steps =>
       NoDup (map snd (all_details pre steps)) /\ ~ In 0 (map snd (all_details pre steps))
       /\ NoDup (map fst pre)
